@@ -21,6 +21,7 @@ import (
 	"strconv"
 	"sync"
 	"sync/atomic"
+	"time"
 
 	"github.com/openGemini/openGemini/engine/immutable"
 	"github.com/openGemini/openGemini/lib/config"
@@ -68,6 +69,18 @@ func verifStartCtl() {
 	mux.HandleFunc("/verif/fs/count", verifFsCount)
 	mux.HandleFunc("/verif/points", verifPoints)
 	go func() { _ = http.Serve(ln, mux) }()
+	if os.Getenv("VERIF_BG_OFF") != "" {
+		// sequential drivers trigger compaction and merge themselves: keep the background
+		// scheduler's switches off from the first moment (shards register as they open)
+		immutable.EnableMergeOutOfOrder = false
+		go func() {
+			for {
+				compWorker.SetAllShardsCompactionSwitch(false)
+				compWorker.SetAllOutOfOrderMergeSwitch(false)
+				time.Sleep(100 * time.Millisecond)
+			}
+		}()
+	}
 }
 
 func verifEng() *EngineImpl {
